@@ -23,6 +23,7 @@ TEMPLATES = {
     "rem1": dict(shapes=[[5], [3]], maxdim=4, merge=False, ignored=[]),                        # a 1-element remainder block
     "big": dict(shapes=[[5, 4], [6]], maxdim=8, merge=False, ignored=[]),                      # factors of size 4..6 in one block
     "rect": dict(shapes=[[5, 3]], maxdim=3, merge=False, ignored=[]),                  # uneven blocks (3,3),(2,3)
+    "wide": dict(shapes=[[128, 2], [4, 2], [2, 2]], maxdim=2, merge=False, ignored=[]),        # 67 blocks: the last two parameters sit beyond block 64
 }
 DYADIC_LR = [0.5, 0.25, 0.125, 0.0625, 0.03125]
 
